@@ -195,8 +195,8 @@ class Schedule:  # 0404
             self._global_ver = msg.payload[SZ_CHANGE_COUNTER]
             return
 
-        if msg.code != Code._0404:
-            return
+        if msg.code != Code._0404 or SZ_FRAGMENT not in msg.payload:
+            return  # e.g. the I (ack) to a W, or a RQ, carries no fragment
 
         # can do via here, or via gwy.async_send_cmd(cmd)
         # next line also in self._get_schedule(), so protected here with a lock
